@@ -19,7 +19,7 @@ Requests
   `ufb <Ty> <dest Py | D> <src Py>`     update_from_builtin (D = fresh `C()`)    → `ok <Py>` | `err <kind>`
   `hasty <strict 0/1> <Ty> <Py>`        well-typedness                           → `1` | `0`
   `default <Ty>`                        `C()` / field default                    → `<Py>`
-  `aliases <n> (<name> <major> <minor>)*n`  package aliases `Name_M`              → `(<name> <major> <newest minor>)*` | `-`
+  `aliases <n> (<name> <major> <minor> <deprecated 0/1>)*n`  package aliases `Name_M`              → `(<name> <major> <newest minor>)*` | `-`
   `import <k> <dotted module path>*k <dotted namespace>`  `do_import` of get_class over that package tree → path | `none`
 Errors: `value` `type` `overflow` `other`; outside the modelled domain the answer is `unmodelled`.
 -/
@@ -240,10 +240,10 @@ def answer (line : String) : String :=
   | "aliases" :: n :: r =>
     let rec go : Nat → Toks → Option (List TyId)
       | 0, [] => some []
-      | k + 1, nm :: ma :: mi :: rest => do
-        let ma ← ma.toNat?; let mi ← mi.toNat?
+      | k + 1, nm :: ma :: mi :: dep :: rest => do
+        let ma ← ma.toNat?; let mi ← mi.toNat?; let dep ← parseBool dep
         let ts ← go k rest
-        pure (⟨nm, ma, mi⟩ :: ts)
+        pure (⟨nm, ma, mi, dep⟩ :: ts)
       | _, _ => none
     match n.toNat?.bind (fun n => go n r) with
     | some tys =>
